@@ -123,7 +123,7 @@ def run(ctx):
                 continue
             if exp:
                 nt += 1
-            if mo is not None and mo[1][k] != "none" and all(ord(ch) < 128 for ch in t):
+            if mo is not None and mo[1][k] not in ("none", ["none"]) and len(mo[1][k]) == 2 and all(ord(ch) < 128 for ch in t):
                 mc, mf = bytes.fromhex(mo[1][k][0][1:]), bytes.fromhex(mo[1][k][1][1:])
                 if mc != cb or mf != fb:
                     ctx.corr_break("CORR-JSON", {"source": p, "text": t, "model_compact": mc[:200].decode("latin-1"), "go_compact": cb[:200].decode("latin-1"),
